@@ -30,6 +30,11 @@ PROPS = ['Props/C04.v']
 LF = 10
 TS_PATTERN = (r'^(?P<year>\d{4})-(?P<month>\d{2})-(?P<day>\d{2}) '
               r'(?P<hours>\d{2}):(?P<minutes>\d{2}):(?P<seconds>\d{2})')
+# second form: a fixed 45-byte prefix, so that the timestamp ends exactly at
+# byte 64 = MAX_DATETIME_READ_BYTES of the line
+PREFIX = b'p' * 45
+TS_PATTERN2 = (r'^p{45}(?P<year>\d{4})-(?P<month>\d{2})-(?P<day>\d{2}) '
+               r'(?P<hours>\d{2}):(?P<minutes>\d{2}):(?P<seconds>\d{2})')
 EPOCH = datetime.datetime(2000, 1, 1)
 BASE = datetime.datetime(2022, 1, 1)
 FMT = '%Y-%m-%d %H:%M:%S'
@@ -41,7 +46,7 @@ def oracle(window):
     """ the timestamp matcher on the bytes read at a line start, tabulated
     with plain Python: seconds since EPOCH or None """
     text = window.decode('utf-8', errors='backslashreplace')
-    m = re.match(TS_PATTERN, text)
+    m = re.match(TS_PATTERN, text) or re.match(TS_PATTERN2, text)
     if not m:
         return None
     try:
@@ -121,7 +126,7 @@ def _matcher_cls():
     class TS(TimestampMatcherBase):
         @property
         def patterns(self):
-            return [TS_PATTERN]
+            return [TS_PATTERN, TS_PATTERN2]
     return TS
 
 
@@ -274,8 +279,13 @@ def gen_log(rng, nlines, H, ordered=True, max_run=None, len_marks=None,
             times.append(t)
             target = rng.choice(marks)
             body = ts_text(t) + b' ' + b'm' * max(0, target - 20)
-            if rng.random() < 0.1:
-                body = ts_text(t)                 # bare timestamp
+            k = rng.random()
+            if k < 0.15:
+                body = ts_text(t)                 # the timestamp is the line
+            elif k < 0.22 and maxlen is None:
+                # timestamp ends exactly at byte 64 = W (alone / with a tail)
+                body = rng.choice([PREFIX + ts_text(t),
+                                   PREFIX + ts_text(t) + b' tail'])
             run = 0
         else:
             run += 1
@@ -287,6 +297,8 @@ def gen_log(rng, nlines, H, ordered=True, max_run=None, len_marks=None,
                                       if t >= 50 else t) + b' tail'
             elif k < 0.55:
                 body = b' ' + ts_text(t + 100000) + b' indented'
+            elif k < 0.60 and maxlen is None:
+                body = b'p' + PREFIX + ts_text(t + 7)   # ends at byte 65
             elif k < 0.65:
                 body = b'2022-02-30 00:00:00 not a date'
             elif k < 0.75:
@@ -370,6 +382,16 @@ def to_secs(t):
 
 # ----------------------------------------------------------------- streams
 _SEEN = {}
+MTIMES = [('past', datetime.datetime(2001, 1, 1).timestamp()),
+          ('future', datetime.datetime(2037, 1, 1).timestamp()),
+          ('now', None)]
+
+
+def set_mtime(chk, path, k):
+    name, m = MTIMES[k % len(MTIMES)]
+    if m is not None:
+        os.utime(path, (m, m))
+    chk.dist('file_mtime_' + name)
 
 
 def run_cases(chk, tag, items, claim, shard):
@@ -385,6 +407,9 @@ def run_cases(chk, tag, items, claim, shard):
             path = os.path.join(chk.work, 'c04.log')
             with open(path, 'wb') as f:
                 f.write(c)
+            # the result must depend on the contents only, not on when the
+            # file was last written
+            set_mtime(chk, path, len(cases))
         cc = coq_case(H, A, L, W, c, [to_secs(t) for t in sinces])
         if cc is None:
             chk.dist('skipped_hash_collision')
@@ -509,6 +534,7 @@ def suffix_runs(chk, metas, limit):
             f.write(c)
         with open(p2, 'wb') as f:
             f.write(c[want:])
+        set_mtime(chk, p1, done)
         got = searcher_results(p1, to_dt(t), H, A, L, W)
         exp = searcher_results(p2, None, H, A, L, W)
         os.unlink(p1)
@@ -615,7 +641,7 @@ def run(chk):
     for k, nl in enumerate(sizes):
         c, times = gen_log(rng, nl, H0, ordered=True, max_run=L0 - 1)
         ks = 8 if nl <= 30 else 5
-        src = 'real/file' if k % 5 == 0 else 'real/bytesio'
+        src = 'real/file' if k % 2 == 0 else 'real/bytesio'
         items.append((H0, A0, L0, W0, c, since_choices(rng, times, ks), src))
     chk.dist('files_real', len(items))
     metas += run_cases(chk, 'real', items, True, shard=1)
@@ -639,7 +665,7 @@ def run(chk):
             A = rng.choice([A0, (80 // H) + 2])
             W = rng.choice([W0, 19, 25])
             items.append((H, A, L, W, c, since_choices(rng, times, 6),
-                          'patched/bytesio'))
+                          'patched/file' if k % 3 == 0 else 'patched/bytesio'))
     chk.dist('files_patched', len(items))
     metas += run_cases(chk, 'patched', items, True, shard=8)
     chk.sample({'patched_case': {'H': items[0][0], 'A': items[0][1],
